@@ -8,7 +8,8 @@ N_QUICK = 2000
 N_THOROUGH = 30000
 LEAN_MODULES = ["JSV.Props.C09"]
 SHRINK = False
-RULE = ("types as in C04 without standard-library marshaler types; per type every valid encoding of 3 + n sampled values and every "
+RULE = ("types as in C04 without standard-library marshaler types (tag names with letters and digits of any script; ~5% of the types hold "
+        "two or three different declared struct types of the same name and package path); per type every valid encoding of 3 + n sampled values and every "
         "single-point mutation of it (drop a key, add a key, swap a value's JSON type incl. null, push an integer past each sized bound, "
         "a fraction, array length +-1; <= 400 per encoding): whenever Validate accepts, json.Decoder with DisallowUnknownFields must decode "
         "into *T (the property observed directly on the real package). Non-trivial: composite type; distinct = operation text")
@@ -19,7 +20,7 @@ def gen(rng, tier, n):
     ops = []
     while len(ops) < n:
         used = set()
-        t = gt.gen_type(rng, rng.choice([1, 2, 3]), used)
+        t = gt.same_name_case(rng, used) if rng.random() < 0.05 else gt.gen_type(rng, rng.choice([1, 2, 3]), used)
         args = {"type": t, "seed": rng.randint(0, 10**6), "n": 2 if tier == "quick" else 6}
         if rng.random() < 0.15:
             # history: the same type was inferred earlier in this process with a looser TypeSchemas override for a type inside it
